@@ -111,12 +111,29 @@ def mempool_suite(tier, rng, replay, monitors):
                  [{"key": "mempool", "cases": cases, "model": "cmp_run run", "monitors": monitors}])
 
 
+import txflow
+
+
 def suites(tier, rng, replay):
+    res = []
     s = mempool_suite(tier, rng, replay, {"pool": "c05_monitor"})
-    return [s] if s else []
+    if s:
+        res.append(s)
+    if not replay or replay.get("suite") == "txflow":
+        res.append(txflow.suite(tier, rng, replay, txflow.make_spec("C05", "")["monitors"]))
+    return res
+
+
+def accept(rec):
+    if rec.get("checker") != "flow":
+        return True
+    code = (rec.get("expected") or [0])[0]
+    return code in txflow.PROPERTY_CODES["C05"] or code >= 197
 
 
 def keyfn(rec):
+    if rec.get("suite") == "txflow":
+        return txflow.keyfn(rec)
     ops = rec.get("ops", [])
     step = rec.get("step", 0)
     opn = ops[step][0] if 0 <= step < len(ops) else "?"
@@ -125,7 +142,8 @@ def keyfn(rec):
 
 SPEC = {
     "pid": "C05",
-    "props_file": "props/C05.v",
+    "props_file": ["props/C05.v", "props/C05_node.v"],
+    "accept_failure": accept,
     "suites": suites,
     "keyfn": keyfn,
     "trusted_base": [
